@@ -28,6 +28,8 @@ KERNEL_TB = [
     "hand-written Gallina model under coq/theories (modelled, not generated, from /repo/nasim)",
     "extraction: Extraction Language OCaml + ExtrOcamlBasic (bool, option, unit, list, prod, sumbool); "
     "no Extract Constant; nat/positive/Z kept inductive; extract/driver.ml (parser/printer); OCaml 4.13.1",
+    "Level-2 translator (translator/*.py): fail-closed Python-ast -> Coq rendering of index arithmetic, the gate "
+    "cascades of Network.perform_action / HostVector.perform_action, the entitlement table, step-limit/reward",
     "correspondence harness (harness/*.py): scenario generators, numpy.random.rand shim, "
     "independent documented-layout decoder, float->1/64 fixed point with exactness assertion, "
     "prob -> ceil(prob*2^53)",
